@@ -487,4 +487,146 @@ theorem valueAt_isSome_of_lt_last : ∀ (t : List Pcvalue) (e : Pcvalue) (pc : N
         rw [List.getLast?_cons_cons] at h
         exact ih e pc h hpc
 
+/-! ## `GetPcspTable` on the frame-code shape -/
+
+theorem codeSize_cons (i : Ins) (l : List Ins) : codeSize (i :: l) = i.size + codeSize l := by
+  simp [codeSize]
+
+theorem codeSize_append (a b : List Ins) : codeSize (a ++ b) = codeSize a + codeSize b := by
+  simp [codeSize, List.sum_append]
+
+theorem getPcspGo_nosp : ∀ (l rest : List Ins) (pc : Nat) (d m : Int), NoSp l →
+    getPcspGo (l ++ rest) pc d m = getPcspGo rest (pc + codeSize l) d m := by
+  intro l
+  induction l with
+  | nil => intro rest pc d m _; simp [codeSize]
+  | cons i l ih =>
+    intro rest pc d m h
+    have hi : i.eff = SpEffect.none := h i (by simp)
+    have hl : NoSp l := fun j hj => h j (by simp [hj])
+    simp only [List.cons_append, getPcspGo, hi]
+    rw [ih rest (pc + i.size) d m hl, codeSize_cons]
+    congr 1
+    omega
+
+theorem linearDelta_nosp : ∀ (l rest : List Ins) (pc target : Nat) (d : Int), NoSp l →
+    pc + codeSize l ≤ target →
+    linearDelta (l ++ rest) pc target d = linearDelta rest (pc + codeSize l) target d := by
+  intro l
+  induction l with
+  | nil => intro rest pc target d _ _; simp [codeSize]
+  | cons i l ih =>
+    intro rest pc target d h hle
+    have hi : i.eff = SpEffect.none := h i (by simp)
+    have hl : NoSp l := fun j hj => h j (by simp [hj])
+    rw [codeSize_cons] at hle
+    have : ¬ (target < pc + i.size) := by omega
+    simp only [List.cons_append, linearDelta, this, if_false, hi]
+    rw [ih rest (pc + i.size) target d hl (by omega), codeSize_cons]
+    congr 1
+    omega
+
+theorem linearDelta_before (rest : List Ins) (pc target : Nat) (d : Int) (h : target < pc) :
+    linearDelta rest pc target d = d := by
+  cases rest with
+  | nil => rfl
+  | cons i r =>
+    have : target < pc + i.size := by omega
+    simp [linearDelta, this]
+
+theorem linearDelta_nosp_inside : ∀ (l rest : List Ins) (pc target : Nat) (d : Int), NoSp l →
+    target < pc + codeSize l → linearDelta (l ++ rest) pc target d = d := by
+  intro l
+  induction l with
+  | nil => intro rest pc target d _ h; simp [codeSize] at h; exact linearDelta_before rest pc target d h
+  | cons i l ih =>
+    intro rest pc target d h hlt
+    have hi : i.eff = SpEffect.none := h i (by simp)
+    have hl : NoSp l := fun j hj => h j (by simp [hj])
+    rw [codeSize_cons] at hlt
+    simp only [List.cons_append, linearDelta, hi]
+    split
+    · rfl
+    · exact ih rest (pc + i.size) target d hl (by omega)
+
+/-- the table `GetPcspTable` builds for the frame-code shape -/
+theorem getPcspTable_frameCode (pre body tail : List Ins) (s1 s2 s3 : Nat) (n : Int)
+    (hpre : NoSp pre) (hbody : NoSp body) :
+    let a := codeSize pre + s1
+    let b := a + codeSize body + s2
+    let c := b + s3
+    getPcspTable (frameCode pre s1 n body s2 s3 tail) =
+      some (⟨a, 0⟩ :: ⟨b, n⟩ :: ⟨c, 0⟩ :: (if tail.isEmpty then [] else [⟨c + codeSize tail, max 0 n⟩])) := by
+  intro a b c
+  unfold getPcspTable frameCode
+  rw [getPcspGo_nosp pre _ 0 0 0 hpre]
+  simp only [getPcspGo]
+  rw [getPcspGo_nosp body _ _ _ _ hbody]
+  simp only [getPcspGo]
+  simp [a, b, c]
+
+
+/-- the four-entry table means exactly the regions -/
+theorem valueAt_frameTable' (a b c e : Nat) (n : Int) (hn : 0 < n) (pc : Nat) :
+    valueAt [⟨a, 0⟩, ⟨b, n⟩, ⟨c, 0⟩, ⟨e, max 0 n⟩] pc = regionDelta a b c e n pc := by
+  have hm : max 0 n = n := by omega
+  simp only [valueAt, regionDelta, hm]
+  repeat' split
+  all_goals first | rfl | omega
+
+theorem wf_frameTable (a b c e : Nat) (n : Int) (h0 : 0 < a) (hab : a < b) (hbc : b < c) (hce : c < e)
+    (he : e < 4294967296) (hn : 0 < n) (hn2 : n < 2147483648) :
+    WellFormed [⟨a, 0⟩, ⟨b, n⟩, ⟨c, 0⟩, ⟨e, max 0 n⟩] := by
+  have hm : max 0 n = n := by omega
+  rw [hm]
+  unfold WellFormed
+  simp only [WF, InInt32]
+  refine ⟨h0, by omega, by omega, by omega, hab, by omega, by omega, by omega, hbc, by omega, by omega, by omega, hce, he, by omega, by omega, trivial⟩
+
+
+theorem valueAt_frameTable3 (a b c : Nat) (n : Int) (pc : Nat) :
+    valueAt [⟨a, 0⟩, ⟨b, n⟩, ⟨c, 0⟩] pc = regionDelta a b c c n pc := by
+  simp only [valueAt, regionDelta]
+  repeat' split
+  all_goals first | rfl | omega
+
+theorem wf_frameTable3 (a b c : Nat) (n : Int) (h0 : 0 < a) (hab : a < b) (hbc : b < c)
+    (he : c < 4294967296) (hn : 0 < n) (hn2 : n < 2147483648) :
+    WellFormed [⟨a, 0⟩, ⟨b, n⟩, ⟨c, 0⟩] := by
+  unfold WellFormed
+  simp only [WF, InInt32]
+  refine ⟨h0, by omega, by omega, by omega, hab, by omega, by omega, by omega, hbc, by omega, by omega, by omega, trivial⟩
+
+/-- up to and including the RET, the regions are what falling through the code does to SP -/
+theorem regionDelta_eq_linear (pre body tail : List Ins) (s1 s2 s3 : Nat) (n : Int)
+    (hpre : NoSp pre) (hbody : NoSp body) (target : Nat) (e : Nat)
+    (ht : target < codeSize pre + s1 + codeSize body + s2 + s3) :
+    regionDelta (codeSize pre + s1) (codeSize pre + s1 + codeSize body + s2)
+      (codeSize pre + s1 + codeSize body + s2 + s3) e n target =
+    some (linearDelta (frameCode pre s1 n body s2 s3 tail) 0 target 0) := by
+  unfold frameCode regionDelta
+  by_cases h1 : target < codeSize pre
+  · rw [linearDelta_nosp_inside pre _ 0 target 0 hpre (by omega)]
+    have : target < codeSize pre + s1 := by omega
+    simp [this]
+  · rw [linearDelta_nosp pre _ 0 target 0 hpre (by omega)]
+    by_cases h2 : target < codeSize pre + s1
+    · simp [linearDelta, h2]
+    · have h2' : ¬ (target < 0 + codeSize pre + s1) := by omega
+      simp only [linearDelta, h2', h2, if_false]
+      by_cases h3 : target < codeSize pre + s1 + codeSize body
+      · rw [linearDelta_nosp_inside body _ _ target _ hbody (by omega)]
+        have : target < codeSize pre + s1 + codeSize body + s2 := by omega
+        simp [this]
+      · rw [linearDelta_nosp body _ _ target _ hbody (by omega)]
+        by_cases h4 : target < codeSize pre + s1 + codeSize body + s2
+        · have h4' : target < 0 + codeSize pre + s1 + codeSize body + s2 := by omega
+          simp [linearDelta, h4, h4']
+        · have h4' : ¬ (target < 0 + codeSize pre + s1 + codeSize body + s2) := by omega
+          have h5 : target < 0 + codeSize pre + s1 + codeSize body + s2 + s3 := by omega
+          simp only [linearDelta, h4', h4, if_false, h5, ht, if_true]
+          congr 1
+          omega
+
+
 end SonicSpec.Loader
